@@ -542,9 +542,12 @@ func runCheck(repo, mode string, args []string) int {
 		}
 		// every property other than the front-end ones is a statement about programs given as source text: its proof rests
 		// on the whole pipeline of main.run (scan, parse, interpret), so the front end belongs to its closure as well
-		if !frontEnd[prop] && byName["main.run"] != nil && !inSet["main.run"] {
-			inSet["main.run"] = true
-			work = append(work, "main.run")
+		// (and on the process entry point, which configures the runtime before anything is read)
+		for _, root := range []string{"main.run", "main.main"} {
+			if !frontEnd[prop] && !inSet[root] { // (a root whose encoding failed has no entry in byName: its engine error still counts)
+				inSet[root] = true
+				work = append(work, root)
+			}
 		}
 		for len(work) > 0 {
 			n := work[len(work)-1]
